@@ -714,6 +714,7 @@ func cCount(th bool) {
 		}
 	}
 	fmt.Printf("B: %d sequences, %d cases\n", len(seqs), nb)
+	fmt.Printf("I: %d sequences\n", len(iSeqs(th)))
 	nd, p := 0, 1
 	for l := 1; l <= dMaxLen(th); l++ {
 		p *= len(dAlphabet)
